@@ -1,20 +1,25 @@
 #!/bin/sh
-# usage: tools/confirm_seed.sh <worktree>   -- confirms a sub-agent's seeded change in its scratch worktree:
-# demo passes without the patch, fails with it; the test-suite still passes (511) with it.
-W="$1"
+# usage: tools/confirm_seed.sh <worktree> [pytest workers]  -- confirms a sub-agent's seeded change in its scratch worktree:
+# demo passes without the patch, fails with it; the test-suite still passes (511) with it.  Safe to run for several worktrees at once
+# (no git stash: the stash is shared between worktrees; every scratch file carries the worktree's name).
+W="$1"; N="${2:-8}"
+T=$(basename "$W")
 cd "$W" || exit 2
-git stash -q -- EasyFEA 2>/dev/null
-echo "--- demo on original:"; PYTHONPATH="$W" timeout 900 /venv/bin/python demo.py >/tmp/seed_demo_orig.log 2>&1; echo "exit $?"; tail -2 /tmp/seed_demo_orig.log
-git stash pop -q 2>/dev/null
-git diff --stat -- EasyFEA | tail -3
-echo "--- demo with change:"; PYTHONPATH="$W" timeout 900 /venv/bin/python demo.py >/tmp/seed_demo_mut.log 2>&1; echo "exit $?"; tail -2 /tmp/seed_demo_mut.log
-echo "--- test-suite with change:"
-PYTHONPATH="$W" timeout 3000 /venv/bin/python -m pytest -q -p no:cacheprovider -n 8 --timeout=900 --junitxml=/tmp/seed_junit.xml >/tmp/seed_tests.log 2>&1
-/venv/bin/python - <<'PY'
-import json, xml.etree.ElementTree as ET
+git diff -- EasyFEA > /tmp/confirm_$T.patch
+[ -s /tmp/confirm_$T.patch ] || { echo "$T: no change in the worktree"; exit 2; }
+cmp -s /tmp/confirm_$T.patch patch.diff || echo "$T: NOTE patch.diff differs from git diff -- EasyFEA"
+git apply -R /tmp/confirm_$T.patch
+PYTHONPATH="$W" MPLBACKEND=Agg timeout 900 /venv/bin/python demo.py >/tmp/confirm_$T.orig.log 2>&1; RO=$?
+git apply /tmp/confirm_$T.patch
+PYTHONPATH="$W" MPLBACKEND=Agg timeout 900 /venv/bin/python demo.py >/tmp/confirm_$T.mut.log 2>&1; RM=$?
+PYTHONPATH="$W" timeout 3000 /venv/bin/python -m pytest -q -p no:cacheprovider -n "$N" --timeout=900 --junitxml=/tmp/confirm_$T.junit.xml >/tmp/confirm_$T.tests.log 2>&1
+/venv/bin/python - "$T" "$RO" "$RM" <<'PY'
+import json, sys, xml.etree.ElementTree as ET
+T, ro, rm = sys.argv[1:4]
 base = set(json.load(open('/root/.vp/BASELINE.json'))['stable_pass'])
 passed=set()
-for tc in ET.parse('/tmp/seed_junit.xml').getroot().iter('testcase'):
+for tc in ET.parse(f'/tmp/confirm_{T}.junit.xml').getroot().iter('testcase'):
     if not list(tc): passed.add(tc.get('classname')+'::'+tc.get('name'))
-print("baseline", len(base), "passed-with-change", len(passed & base), "missing", sorted(base-passed)[:5])
+files = sorted({l.split()[-1] for l in open(f'/tmp/confirm_{T}.patch') if l.startswith('+++ ')})
+print(f"{T}: demo_on_original exit={ro} demo_with_change exit={rm} baseline={len(base)} passed_with_change={len(passed & base)} missing={sorted(base-passed)[:3]} files={files}")
 PY
